@@ -313,8 +313,10 @@ class ModelCompiler:
                     for row in self.model.ranges[range].cells:
                         for cell_address in row:
                             if cell_address not in self.model.cells.keys():
+                                # An empty cell holds no value (as the
+                                # reader stores it), not an empty text.
                                 self.model.cells[cell_address] = \
-                                    xltypes.XLCell(cell_address, '')
+                                    xltypes.XLCell(cell_address, None)
 
             if formula in self.model.cells:
                 self.model.cells[formula].formula.associated_cells = \
